@@ -5,7 +5,7 @@ import json
 import os
 import shutil
 
-from .. import obs, corpus, cfggen, hazard
+from .. import zoo, obs, corpus, cfggen, hazard
 from ..common import pmap_proc, tlc_retry, write_ndjson, sh, build
 from .c03 import COMMENTS
 
@@ -164,6 +164,26 @@ def run(ctx):
                 i = len(jobs)
                 jobs.append((runner, tmp, i, fr.encode(), lg, cfgt, False, use_asan))
                 meta[i] = ("frag", fr.encode(), lg, cfgt)
+    # the file ends after every proper prefix of every token class of the language's lexer (vlib/zoo.py), and a complete
+    # construct is followed by every proper prefix of another one; each under the empty configuration or (seeded) one of
+    # the all-options-random configurations / all comment options on
+    zcfgs = [""] * 3 + [cmt_all] + fulls
+    zoo_all = []
+    for lg in LANG_EXT:
+        for label, text in zoo.zoo_prefixes(lg):
+            zoo_all.append((label, text, lg))
+    for label, text in zoo.pair_fragments():
+        zoo_all.append((label, text, "CPP" if ("template" in text or "class " in text or "namespace" in text or "auto " in text or "using " in text or "try " in text)
+                        else ("OC" if ("@interface" in text or "[o m" in text) else ctx.rng.choice(("C", "CPP")))))
+    if quick:
+        ctx.rng.shuffle(zoo_all)
+        zoo_all = zoo_all[:5000]
+    for label, text, lg in zoo_all:
+        for cfgt in ([ctx.rng.choice(zcfgs)] if quick else ["", cmt_all, ctx.rng.choice(fulls)]):
+            i = len(jobs)
+            jobs.append((runner, tmp, i, text.encode(), lg, cfgt, False, use_asan))
+            meta[i] = (label, text.encode(), lg, cfgt)
+    ctx.cov["end_inside_token_inputs"] = len(zoo_all)
     # inputs that once broke the property (kept so that the repair is checked on every run): regress/C06
     rdir = os.path.join(os.path.dirname(os.path.dirname(os.path.dirname(os.path.abspath(__file__)))), "regress", "C06")
     if os.path.isdir(rdir):
@@ -181,6 +201,18 @@ def run(ctx):
                     i = len(jobs)
                     jobs.append((runner, tmp, i, text.encode(), lg, "", False, use_asan))
                     meta[i] = ("deep %r x %d" % (opener, depth), text.encode(), lg, "")
+    # the same depth with declarations inside, under configurations that switch the per-level tables on (align_*, indent_*)
+    body = "void f(\n    int a,\n       int bb);\nint x = 1;\nint *p = (int *)q;\nx = a + // c\n    b;\n"
+    for opener, closer in (("namespace a {\n", "}\n"), ("{\n", "}\n"), ("if (a) {\n", "}\n"), ("struct s {\n", "};\n"), ("class c { public:\n", "};\n"), ("switch (a) { case 1: {\n", "}}\n")):
+        for depth in ((20, 70) if quick else (17, 20, 70, 300)):
+            text = ("void g() {\n" if opener[0] in "{is" and not opener.startswith("struct") else "") + opener * depth + body + closer * depth + ("}\n" if opener[0] in "{is" and not opener.startswith("struct") else "")
+            align_all = "".join("%s=%s\n" % (o["name"], "true" if o["kind"] == "bool" else "2") for o in cfggen.registry(unc)
+                                if o["name"].startswith("align_") and o["kind"] in ("bool", "unum") and "thresh" not in o["name"])
+            for cfgt in [align_all] + fulls[:(3 if quick else 12)]:
+                for lg in ("CPP", "C") if opener.startswith(("{", "if", "switch")) else ("CPP",):
+                    i = len(jobs)
+                    jobs.append((runner, tmp, i, text.encode(), lg, cfgt, False, use_asan))
+                    meta[i] = ("deepbody %r x %d" % (opener, depth), text.encode(), lg, cfgt)
     # well-formed programs under width / comment pressure (loop termination)
     for lang in hazard.DENSE:
         for cw in ((1, 20) if quick else (1, 5, 20, 40)):
